@@ -1,7 +1,8 @@
 import LdkModel.Driver.Util
 import LdkModel.Model.OnchainFailed
+import LdkModel.Model.Unbroadcast
 namespace Ldk.Driver
-open Ldk.OnchainFailed
+open Ldk.OnchainFailed Ldk.Unbroadcast
 
 /-! c03chain: the restart reconstruction `ChannelMonitor::get_onchain_failed_outbound_htlcs` recomputed by
     Model/OnchainFailed.lean on the monitor view the real node had (dumped by `verif_onchain_failed_view`; txids and
@@ -14,6 +15,9 @@ open Ldk.OnchainFailed
          acur <curCp|-> <prevCp|-> <cpc> <cpp> <rtu>   (`get_all_current_outbound_htlcs`): `listed <src,...|->`
          rout <persisted parts> <sources listed with a preimage> <inMap01 of the channel> <1 iff the payment has another part on an OPEN channel> <the 13 ocf fields>
            (`ChannelManager::read` for one payment: `outcome sent|failed|pending` = restartOutcome)
+         fub <confirmed txid> <curCp|-> <prevCp|-> <cpc> <cpp> <holderCurTxid> <hcur> <holderPrevTxid|-> <hprev> <ful>
+           (the live `fail_unbroadcast_htlcs!` check when the transaction confirms; lists are `src@idx@hash@amt,...` | `-`,
+            ful = sources in counterparty_fulfilled_htlcs): `queued <src,...|->` = queuedOnConfirm (sorted, no duplicates)
     `reset` answers `ok`. -/
 
 def optNat (s : String) : Option Nat := if s == "-" || s == "x" then none else some (nat! s)
@@ -24,6 +28,11 @@ def parseHtlcs (s : String) : List Htlc :=
   (csvOf s).map fun w => match w.splitOn "@" with
     | [a, b] => { src := optNat a, outIdx := optNat b }
     | _ => { src := none, outIdx := none }
+
+def parseBHtlcs (s : String) : List BHtlc :=
+  (csvOf s).map fun w => match w.splitOn "@" with
+    | [a, b, h, v] => { src := optNat a, outIdx := optNat b, hash := nat! h, amt := nat! v }
+    | _ => { src := none, outIdx := none, hash := 0, amt := 0 }
 
 def parseAw (s : String) : List Awaiting :=
   (csvOf s).map fun w => match w.splitOn ":" with
@@ -105,6 +114,18 @@ def c03chain : Drv where
           resolvedOnChain := [] }
       let r := sortDedup (allCurrentOutbound m)
       ((), "listed " ++ (if r.isEmpty then "-" else String.intercalate "," (r.map toString)))
+    | ["fub", t, cur, prev, cpc, cpp, hct, hc, hpt, hp, ful] =>
+      let v : LiveView :=
+        { curCp := optNat cur
+          prevCp := optNat prev
+          cpCur := parseBHtlcs cpc
+          cpPrev := parseBHtlcs cpp
+          holderCurTxid := nat! hct
+          holderCur := parseBHtlcs hc
+          holderPrev := (optNat hpt).map (fun t => (t, parseBHtlcs hp))
+          fulfilled := (csvOf ful).map (fun x => nat! x) }
+      let r := sortDedup (queuedOnConfirm v (nat! t))
+      ((), "queued " ++ (if r.isEmpty then "-" else String.intercalate "," (r.map toString)))
     | _ => ((), "bad-op")
 
 end Ldk.Driver
